@@ -86,7 +86,8 @@ def run_c12(rep, tier):
         if list(perm) != [0, 1, 2]:
             tasks.append((3, list(perm), True, {}))
     if tier == 'thorough':
-        tasks.append((3, None, False, {}))
+        # (the raw, un-reduced run at n=3 was dropped: 12 unrollings of the main loop without reduction did not finish in 90 min;
+        #  the simplifier is audited by the complete lemma re-proofs of the n<=3 runs and the raw n=2 run)
         for perm in itertools.permutations(range(4)):
             if list(perm) != [0, 1, 2, 3]:
                 tasks.append((4, list(perm), True, {}))
@@ -95,7 +96,7 @@ def run_c12(rep, tier):
             tasks.append((5, None, True, dict(zip(forkbits, vals)), k_ % 64 == 0))      # simplifier audit on every 64th fork (6 min each)
     rep.cov['bounds'].update(n_max='5 (all 512 forks)' if tier == 'thorough' else '4 complete; 5: all loop-free graphs + 24 of the 496 remaining forks', orders='all 6 at n=3' + (', all 24 at n=4' if tier == 'thorough' else ''),
                              loop_bound='compute_SCCs while loops: n*n+n iterations; remaining-iteration guard is part of every query',
-                             no_fold='n=2' + (' and n=3' if tier == 'thorough' else ''))
+                             no_fold='n=2')
     # node values other than small ints (None, str, tuple, frozenset, float mixes): the algorithm only hashes and compares them
     for u in C12_UNIVERSES:
         tasks.append((len(u), None, True, {}, False, u))
